@@ -127,6 +127,7 @@ func (r *reloader) reload(conf *config.Config) error {
 			return err
 		}
 		// rcv.Name is guaranteed to be unique across all receivers.
+		integrations = verifIntegrations(rcv.Name, integrations)
 		receivers[rcv.Name] = integrations
 		integrationsNum += len(integrations)
 	}
